@@ -192,16 +192,19 @@ Definition swap_candidates (G : graph) (s : state) : list (nat * nat) :=
       map (fun c => sorted_pair (at_ (p2l s) q) (at_ (p2l s) c)) (neighbors G q))
       (iqs it)) (front_items s).
 
-(* apply logical swaps one after the other (each is CircuitMap.update) *)
-Fixpoint apply_swaps (n : nat) (s : state) (f : list (state -> nat * nat)) : option state :=
+(* apply logical swaps one after the other (each is CircuitMap.update); [chk] is the guard
+   demanded of every swap (no_guard = what the code does, guard_edge G = what it should meet) *)
+Fixpoint apply_swaps (n : nat) (chk : state -> op -> bool) (s : state) (f : list (state -> nat * nat)) : option state :=
   match f with
   | [] => Some s
   | g :: f' =>
       let '(a, b) := g s in
-      match step n s (OSwap a b) with
-      | Some s' => apply_swaps n s' f'
-      | None => None
-      end
+      if chk s (OSwap a b) then
+        match step n s (OSwap a b) with
+        | Some s' => apply_swaps n chk s' f'
+        | None => None
+        end
+      else None
   end.
 
 (* ShortestPaths._add_swaps(candidate = (path, meeting_point)) AS IN THE SOURCE:
